@@ -3,5 +3,5 @@
 cd "$(dirname "$0")/.."; T=${1:-quick}
 # (IDS="C14 C15" restricts the run)
 for id in ${IDS:-$(python3 -c "import json; print(' '.join(c['property_id'] for c in json.load(open('MANIFEST.json'))['checks']))")}; do
-  s=$(date +%s); out=$(./check $id --tier $T 2>&1 | tail -1); echo "$id exit=$? $(( $(date +%s)-s ))s :: $out"
+  s=$(date +%s); out=$(./check $id --tier $T 2>&1 | tail -1); echo "$id $(( $(date +%s)-s ))s :: $out"
 done
